@@ -48,7 +48,8 @@ def gen_ops(rng, tier):
     # sampling factors beyond the TurboJPEG levels (libjpeg API): row groups of 2..4 rows through the h2v1 / h2v2 / generic downsamplers
     for i in range(1500 if big else 260):
         f = rng.choice([(2, 2, 1, 2, 1, 2), (2, 2, 2, 1, 2, 1), (2, 2, 1, 2, 1, 2), (4, 2, 2, 2, 1, 1), (2, 4, 1, 2, 1, 4), (4, 1, 2, 1, 1, 1), (2, 2, 1, 1, 2, 1), (3, 2, 1, 2, 1, 1), (2, 3, 2, 1, 1, 3),
-                        (1, 2, 1, 1, 1, 2), (2, 1, 1, 1, 2, 1), (4, 4, 2, 2, 1, 1), (2, 2, 1, 2, 2, 2)])
+                        (1, 2, 1, 1, 1, 2), (2, 1, 1, 1, 2, 1), (4, 4, 2, 2, 1, 1), (2, 2, 1, 2, 2, 2),
+                        (4, 2, 1, 1, 1, 1), (2, 2, 1, 1, 1, 1), (4, 1, 1, 1, 1, 1), (2, 4, 1, 1, 1, 1), (4, 4, 1, 1, 1, 1), (4, 2, 2, 1, 2, 1), (4, 2, 1, 2, 1, 2), (2, 1, 1, 1, 1, 1), (1, 2, 1, 1, 1, 1)])
         ops.append("s5n %d %d %d %d %d %d %s" % (rng.choice([rng.randint(1, 70), 17, 31, 33, 47, 48, 16, 32]), rng.randint(1, 40), rng.randrange(1 << 30), rng.randrange(5), rng.randrange(2),
                                                  rng.choice([0, 0, 0, 30]), " ".join(map(str, f))))
     # entropy coding alone: SIMD Huffman / progressive-prepare routines against the C ones on formula coefficients, every scan script
